@@ -378,25 +378,35 @@ impl Chooser {
         }
         Chooser { kind: s.clone(), rng, pos: 0, prio, change_at, rr_cur: 0, rr_left: 0 }
     }
-    fn pick(&mut self, runnable: &[usize]) -> usize {
+    /// returns (thread, quantum): quantum = number of synchronisation points the thread may
+    /// pass before it has to yield (only meaningful in the function-entry-instrumented build)
+    fn pick(&mut self, runnable: &[usize]) -> (usize, u32) {
         let i = self.pos;
         self.pos += 1;
         match &self.kind {
             Schedule::Explicit(v) => {
-                if i < v.len() && runnable.contains(&v[i]) {
-                    v[i]
+                if i < v.len() && runnable.contains(&(v[i] % 64)) {
+                    (v[i] % 64, (v[i] / 64) as u32 + 1)
                 } else {
-                    runnable[0]
+                    (runnable[0], 1)
                 }
             }
-            Schedule::Random(_) => runnable[self.rng.below(runnable.len())],
+            Schedule::Random(_) => {
+                let t = runnable[self.rng.below(runnable.len())];
+                let q = match self.rng.below(4) {
+                    0 | 1 => 1,
+                    2 => self.rng.range(2, 4) as u32,
+                    _ => self.rng.range(5, 40) as u32,
+                };
+                (t, q)
+            }
             Schedule::Pct(_, _) => {
                 let t = *runnable.iter().max_by_key(|t| self.prio[**t]).unwrap();
                 if self.change_at.contains(&i) {
                     // demote the running thread below everyone else
                     self.prio[t] = (self.change_at.len() as u64).saturating_sub(i as u64 % 7);
                 }
-                t
+                (t, if self.change_at.contains(&(i + 1)) { 1 } else { 1 + (self.rng.next() % 3) as u32 })
             }
             Schedule::RoundRobin(q) => {
                 if self.rr_left == 0 || !runnable.contains(&self.rr_cur) {
@@ -405,9 +415,9 @@ impl Chooser {
                     self.rr_left = (*q).max(1);
                 }
                 self.rr_left -= 1;
-                self.rr_cur
+                (self.rr_cur, 1)
             }
-            Schedule::Sequential => runnable[0],
+            Schedule::Sequential => (runnable[0], 1_000_000),
         }
     }
 }
@@ -433,6 +443,7 @@ pub fn run_plan(plan: &SchedPlan, shared: &Shared, ref_shared: &Shared, refs: &m
     let mut decisions: Vec<usize> = vec![];
     let mut exec_order: Vec<(usize, usize)> = vec![]; // (thread, op index) in completion order
     let mut stalled: Option<String> = None;
+    let mut blocked_events = 0u64;
 
     with_objs(plan, n, |objs| {
         std::thread::scope(|s| {
@@ -479,13 +490,58 @@ pub fn run_plan(plan: &SchedPlan, shared: &Shared, ref_shared: &Shared, refs: &m
             // ---- the scheduler
             let mut chooser = Chooser::new(&plan.schedule, n);
             let mut last_progress: Vec<usize> = vec![0; n];
+            let mut all_blocked_since: Option<std::time::Instant> = None;
             loop {
                 let unfinished: Vec<usize> = (0..n).filter(|t| !sim.is_finished(*t)).collect();
                 if unfinished.is_empty() {
                     break;
                 }
-                // stalled threads are held back until everyone else is done
-                let mut runnable: Vec<usize> = unfinished
+                // threads asleep on a lock are not candidates until they re-join; whether a revoked thread
+                // is still asleep is settled before every decision, so the candidate set is a function of
+                // the logical state (is its lock still held?) and not of timing
+                for t in &unfinished {
+                    if sim.is_revoked(*t) {
+                        sim.settle_revoked(*t);
+                    }
+                }
+                let unfinished: Vec<usize> = unfinished.into_iter().filter(|t| !sim.is_finished(*t)).collect();
+                if unfinished.is_empty() {
+                    break;
+                }
+                let awake: Vec<usize> = unfinished.iter().copied().filter(|t| !sim.is_revoked(*t)).collect();
+                if awake.is_empty() {
+                    // every unfinished thread sleeps in the kernel holding or wanting a lock
+                    let since = *all_blocked_since.get_or_insert_with(std::time::Instant::now);
+                    if since.elapsed() > Duration::from_millis(1500) {
+                        let detail: Vec<String> = unfinished
+                            .iter()
+                            .map(|t| {
+                                let done = progress[*t].lock().unwrap().0;
+                                format!("thread {}: op #{} {}, {}", t, done, plan.threads[*t].ops.get(done).map(|o| o.key()).unwrap_or_default(), sim.describe(*t))
+                            })
+                            .collect();
+                        stalled = Some(format!("deadlock: every unfinished thread ({:?}) is blocked inside a library call [{}]", unfinished, detail.join("; ")));
+                        let r = SRun {
+                            violation: None,
+                            digest: 0,
+                            decisions: decisions.clone(),
+                            ops_run: 0,
+                            yields: 0,
+                            counters: Default::default(),
+                            object_histories: vec![],
+                            pair_kinds: vec![],
+                            log: vec![],
+                            stalled: stalled.clone(),
+                        };
+                        on_stall(&r);
+                        std::process::exit(4);
+                    }
+                    sim.wait_for_rejoin(Duration::from_millis(20));
+                    continue;
+                }
+                all_blocked_since = None;
+                // stalled threads (fault) are held back until everyone else is done
+                let mut runnable: Vec<usize> = awake
                     .iter()
                     .copied()
                     .filter(|t| match plan.threads[*t].stall_after {
@@ -494,31 +550,39 @@ pub fn run_plan(plan: &SchedPlan, shared: &Shared, ref_shared: &Shared, refs: &m
                     })
                     .collect();
                 if runnable.is_empty() {
-                    runnable = unfinished.clone();
+                    runnable = awake.clone();
                 }
-                let t = chooser.pick(&runnable);
-                decisions.push(t);
-                if let Err(at) = sim.grant(t, cfg.stall_timeout) {
-                    stalled = Some(format!("thread {} never returned the token (last yield point: {})", t, at));
-                    let r = SRun {
-                        violation: None,
-                        digest: 0,
-                        decisions: decisions.clone(),
-                        ops_run: 0,
-                        yields: 0,
-                        counters: Default::default(),
-                        object_histories: vec![],
-                        pair_kinds: vec![],
-                        log: vec![],
-                        stalled: stalled.clone(),
-                    };
-                    on_stall(&r);
-                    std::process::exit(2);
+                let (t, q) = chooser.pick(&runnable);
+                decisions.push(t + 64 * (q.min(1_000_000) as usize - 1).min(1 << 20));
+                match sim.grant(t, q, cfg.stall_timeout) {
+                    crate::tok::Grant::Returned => {}
+                    crate::tok::Grant::Blocked => {
+                        blocked_events += 1;
+                    }
+                    crate::tok::Grant::Stalled(at) => {
+                        stalled = Some(format!("thread {} never returned the token (last yield point: {})", t, at));
+                        let r = SRun {
+                            violation: None,
+                            digest: 0,
+                            decisions: decisions.clone(),
+                            ops_run: 0,
+                            yields: 0,
+                            counters: Default::default(),
+                            object_histories: vec![],
+                            pair_kinds: vec![],
+                            log: vec![],
+                            stalled: stalled.clone(),
+                        };
+                        on_stall(&r);
+                        std::process::exit(4);
+                    }
                 }
-                let p = progress[t].lock().unwrap().0;
-                while last_progress[t] < p {
-                    exec_order.push((t, last_progress[t]));
-                    last_progress[t] += 1;
+                for t in 0..n {
+                    let p = progress[t].lock().unwrap().0;
+                    while last_progress[t] < p {
+                        exec_order.push((t, last_progress[t]));
+                        last_progress[t] += 1;
+                    }
                 }
                 if decisions.len() > 200_000 {
                     break;
@@ -729,6 +793,8 @@ pub fn run_plan(plan: &SchedPlan, shared: &Shared, ref_shared: &Shared, refs: &m
     }
     let yields_n: u64 = *yields_total.lock().unwrap();
     cnt.add("yields_inside_calls", yields_n);
+    cnt.add("sync_points_reached", sim.sync_points.load(std::sync::atomic::Ordering::Relaxed));
+    cnt.add("threads_found_blocked_on_a_lock", blocked_events);
     dg.u64(ops_run as u64);
     SRun {
         violation,
@@ -891,6 +957,18 @@ pub fn gen_plan(seed: u64, cfg: &GenCfg) -> SchedPlan {
             ops.push(op);
         }
         threads.push(ThreadPlan { ops, ..Default::default() });
+    }
+    // contention variant: a third of the runs repeat two or three operations everywhere, so that
+    // caches, lazily built tables and reused buffers see the same keys from several threads
+    if r.chance(1, 3) {
+        let all: Vec<Op> = threads.iter().flat_map(|t| t.ops.iter().cloned()).collect();
+        let k = r.range(2, 3).min(all.len());
+        let hot: Vec<Op> = (0..k).map(|_| r.pick(&all).clone()).collect();
+        for t in threads.iter_mut() {
+            for o in t.ops.iter_mut() {
+                *o = r.pick(&hot).clone();
+            }
+        }
     }
     // faults: most runs have none or one
     let nshared = cfg.nshared;
